@@ -1,11 +1,9 @@
 #!/bin/bash
-# detection robustness: every seeded change against the check(s) that caught it in the matrix, at other VERIF_SEED values
+# detection robustness: every seeded change against its own property's quick check at other VERIF_SEED values
 cd /verif
 seeds=${1:-2,3,4}
 pat=${2:-.}; ids=$(ls seeded | grep -E "^C[0-9]+[a-z]$" | grep -E "$pat")
 lane() { for id in "$@"; do p=${id:0:3}
-  # C06d / C19d / C15e belong to another property (see DESIGN.md section 10)
-  case $id in C06d|C19d) p=C11;; C15e) p=C17;; esac
   python3 tools/seedtest.py seeded/$id --props $p --seeds $seeds > seeded/$id/robust.json 2> /tmp/mut/$id.err
   python3 - $id <<'PY'
 import json,sys
